@@ -6,7 +6,7 @@ use std::sync::{Arc, Mutex};
 use std::time::Duration;
 
 use alpenglow::all2all::TrivialAll2All;
-use alpenglow::consensus::{Alpenglow, ConsensusMessage, SharedPool, VerifFinalization};
+use alpenglow::consensus::{Alpenglow, ConsensusMessage, SharedPool, ValidatedCert, VerifFinalization};
 use alpenglow::disseminator::rotor::{IidQuorumSampler, StakeWeightedSampler};
 use alpenglow::disseminator::{Rotor, TrivialDisseminator};
 use alpenglow::repair::{RepairRequest, RepairResponse};
@@ -63,6 +63,9 @@ pub struct WireLog {
     /// raw skip certificates seen (sent or delivered), by slot: validated lazily by the safety oracle
     pub skip_cert_bytes: BTreeMap<u64, Vec<Arc<Vec<u8>>>>,
     /// per shred (slot, slice, index): who sent it to whom and where it was delivered (only when enabled)
+    /// certificates broadcast by a node of this cluster that fail validation (checked once per sender and key)
+    pub invalid_certs_sent: Vec<(usize, crate::model::MCert)>,
+    cert_checked: BTreeSet<(usize, u64, u8, Option<H32>)>,
     pub track_routes: bool,
     pub routes: BTreeMap<(u64, u64, u64), ShredRoute>,
 }
@@ -98,6 +101,8 @@ impl Cluster {
         {
             let l = log.clone();
             let l2 = log.clone();
+            let byz_set = byz.clone();
+            let info = ep.info.clone();
             let mut c = net.0.lock().unwrap();
             c.on_send = Some(Box::new(move |d: &Datagram| {
                 let mut w = l.lock().unwrap();
@@ -118,6 +123,10 @@ impl Cluster {
                                         if e.len() < 4 {
                                             e.push(d.bytes.clone());
                                         }
+                                    }
+                                    // what a correct node broadcasts must validate at every receiver
+                                    if !byz_set.contains(&d.from.1) && w.cert_checked.insert((d.from.1, m.slot, m.kind as u8, m.hash)) && ValidatedCert::try_new(c.clone(), &info).is_err() {
+                                        w.invalid_certs_sent.push((d.from.1, m.clone()));
                                     }
                                     w.certs_sent.push((d.t, d.from.1, m))
                                 }
